@@ -197,7 +197,7 @@ pub fn build_scenario(
         match step {
             Step::Backup(t, o) => {
                 let next = Snap::load(&dir).band_ids().last().map(|b| b + 1).unwrap_or(0);
-                let out = run::do_backup(&dir, &srcs.dir_for(t), o, None, Flavor::Current);
+                let out = run::do_backup(&dir, &srcs.dir_for(t), o, run::NOHOOK, Flavor::Current);
                 assert!(
                     out.clean_success(),
                     "scenario {name}: history backup failed: {}",
@@ -235,7 +235,7 @@ pub fn build_scenario(
                 complete.remove(b);
             }
             Step::Delete(bands) => {
-                let out = run::do_delete(&dir, bands, false, false, None, Flavor::Current, None);
+                let out = run::do_delete(&dir, bands, false, false, run::NOHOOK, Flavor::Current, None);
                 assert!(out.op.clean(), "scenario {name}: delete failed: {}", out.op.describe());
                 for b in bands {
                     band_src.remove(b);
@@ -343,7 +343,7 @@ pub fn restore_exact(
     cmp: Cmp,
 ) -> Vec<String> {
     let dest = scratch.fresh("rst");
-    let out = run::do_restore(archive_dir, &dest, &RestoreArgs::band(band), None, Flavor::Current);
+    let out = run::do_restore(archive_dir, &dest, &RestoreArgs::band(band), run::NOHOOK, Flavor::Current);
     let mut diffs = Vec::new();
     if let Some(p) = &out.panicked {
         diffs.push(format!("restore of b{band:04} panicked: {p}"));
